@@ -108,6 +108,22 @@ func cdRoundTrip(num uint16, data []byte) (string, string) {
 		}
 	}
 
+	// ... and through a value that was decoded from a received frame and is sent on under another
+	// number: its Data is a slice of its own Raw
+	for _, spare := range []int{0, 1, 4, 64} {
+		if k, m := cdRoundTripPrepared(num, data, func(cd *proto.ChannelData) {
+			in := ref.EncodeChannelData(0x4ABC, data, true)
+			cd.Raw = append(make([]byte, 0, len(in)+spare), in...)
+			if err := cd.Decode(); err != nil {
+				cd.Reset()
+				cd.Data = data
+			}
+			cd.Number = proto.ChannelNumber(num)
+		}); k != "" {
+			return k, fmt.Sprintf("%s (value decoded from a frame and encoded again, %d spare bytes)", m, spare)
+		}
+	}
+
 	return "", ""
 }
 
